@@ -170,6 +170,12 @@ static void runCase(const std::string& mode, const std::string& choiceTxt, const
     gen::Choice ch = gen::parseChoice(choiceTxt); gen::Content c; gen::Layout l;
     if (mode == "c12") { if (!c12Content(choiceTxt, c, l)) { out.outcome = "not-well-formed"; return; } }
     else if (ch.count("file")) { }
+    else if (ch.count("size")) {   // one count made large-ish, everything else default
+        std::string dim = ch["size"].substr(0, ch["size"].find(':')); int n = atoi(ch["size"].substr(ch["size"].find(':') + 1).c_str()); gen::Choice none; gen::apply(none, c, l);
+        if (dim == "points") { c.nPoints = n; } else if (dim == "chans") { c.nChans = n; } else if (dim == "frames") { c.nFrames = n; } else if (dim == "spf") { c.spf = n; c.analogRate = c.pointRate * (float)n; }
+        else if (dim == "nparams") { c.extra = "custom"; for (int i = 0; i < n; ++i) c.customParams.push_back(gen::GParam::ints("P" + std::to_string(i), {}, {i - 100})); }
+        else if (dim == "ngroups") { c.extraGroups = n; }
+    }
     else if (ch.count("strpad")) {   // sweep of declared string widths against text lengths: a text of t characters in cells of w characters (the writer pads, the reader trims)
         int w = atoi(ch["strpad"].c_str()), t = atoi(ch["strpad"].substr(ch["strpad"].find(':') + 1).c_str()); gen::Choice none; gen::apply(none, c, l); c.extra = "custom";
         std::string text; for (int i = 0; i < t; ++i) text += (char)('a' + i % 26);
@@ -266,6 +272,8 @@ int main(int argc, char** argv) {
     if (mode == "c12") { cases = c12Cases(thorough); choices.resize(cases.size()); for (size_t i = 0; i < cases.size(); ++i) choices[i]["case"] = cases[i]; }
     else { gen::enumerate(gen::dims(thorough), devs, choices); for (auto& v : vendorFiles) { gen::Choice c; c["file"] = v; choices.push_back(c); }
         if (mode == "c02" || mode == "c04") for (int w = 0; w <= 255; ++w) for (int t : {0, 1, 6}) { if (t > w) continue; gen::Choice c; c["strpad"] = std::to_string(w) + ":" + std::to_string(t); choices.push_back(c); }
+        if (mode == "c02" || mode == "c04") for (auto dim : {"points", "chans", "frames", "spf", "nparams", "ngroups"}) for (int n : {15, 16, 17, 31, 32, 33, 63, 64, 65, 127, 128, 129, 254, 255}) {   // every count at the powers of two and their neighbours
+            if ((std::string(dim) == "spf" && n > 129) || (std::string(dim) == "ngroups" && n > 120)) continue; gen::Choice c; c["size"] = std::string(dim) + ":" + std::to_string(n); choices.push_back(c); }
         for (auto& c : choices) cases.push_back(gen::choiceText(c)); }
     if (mode == "corpus") {
         mkdir(emitDir.c_str(), 0755); size_t n = 0; FILE* idx = fopen((emitDir + "/index.txt").c_str(), "w");
